@@ -91,6 +91,11 @@ pub enum Val {
     /// `len` bytes of mostly well-formed UTF-8 text made of 1-, 2-, 3- and 4-byte characters,
     /// with a few stray invalid bytes at seed-dependent positions
     U { len: u32, seed: u32 },
+    /// `len` bytes of particular CONTENT: form 0 all 0x00, 1 all 0xFF, 2 text that starts with a
+    /// byte order mark (EF BB BF), 3 a prefix-stable stream (same seed: the shorter value is a
+    /// prefix of the longer one), 4 one repeated byte, 5 ends in NUL bytes, 6 valid UTF-8 only,
+    /// 7 starts with 0x00
+    C { len: u32, seed: u32, form: u8 },
 }
 
 impl Val {
@@ -99,12 +104,116 @@ impl Val {
             Val::P { len, seed } => pattern_bytes(*len as usize, *seed),
             Val::B(b) => b.clone(),
             Val::U { len, seed } => utf8ish_bytes(*len as usize, *seed),
+            Val::C { len, seed, form } => content_bytes(*len as usize, *seed, *form),
         }
     }
     pub fn len(&self) -> usize {
         match self {
-            Val::P { len, .. } | Val::U { len, .. } => *len as usize,
+            Val::P { len, .. } | Val::U { len, .. } | Val::C { len, .. } => *len as usize,
             Val::B(b) => b.len(),
+        }
+    }
+}
+
+/// value of Op::PutRel, derived from the value currently stored
+pub fn rel_value(old: Option<&Vec<u8>>, mode: u8, n: u16, k: u32) -> Vec<u8> {
+    let old: Vec<u8> = old.cloned().unwrap_or_default();
+    let n = n as usize;
+    match mode % 6 {
+        0 => {
+            let mut v = old;
+            v.extend(stream_bytes(1 + n % 700, k ^ n as u32));
+            v
+        }
+        1 => {
+            let cut = (1 + n % 700).min(old.len());
+            old[..old.len() - cut].to_vec()
+        }
+        2 => old,
+        3 => {
+            let mut v = old;
+            if v.is_empty() {
+                v.push(1);
+            } else {
+                let i = n % v.len();
+                v[i] ^= 0x5A;
+            }
+            v
+        }
+        4 => {
+            let mut v = stream_bytes(1 + n % 300, k.wrapping_add(77) ^ n as u32);
+            v.extend(old);
+            v
+        }
+        _ => {
+            if old.len() > 4096 {
+                old
+            } else {
+                let mut v = old.clone();
+                v.extend(old);
+                v
+            }
+        }
+    }
+}
+
+/// a byte stream that depends on the seed only (prefix-stable)
+pub fn stream_bytes(len: usize, seed: u32) -> Vec<u8> {
+    let mut v = Vec::with_capacity(len + 8);
+    let mut x: u64 = 0xA076_1D64_78BD_642Fu64 ^ ((seed as u64 + 1) << 23);
+    while v.len() < len {
+        x ^= x << 13;
+        x ^= x >> 7;
+        x ^= x << 17;
+        v.extend_from_slice(&x.to_le_bytes());
+    }
+    v.truncate(len);
+    v
+}
+
+pub fn content_bytes(len: usize, seed: u32, form: u8) -> Vec<u8> {
+    match form % 8 {
+        0 => vec![0u8; len],
+        1 => vec![0xFFu8; len],
+        2 => {
+            let mut v = vec![0xEFu8, 0xBB, 0xBF];
+            v.extend(utf8ish_bytes(len.saturating_sub(3), seed));
+            v.truncate(len);
+            v
+        }
+        3 => stream_bytes(len, seed),
+        4 => vec![(seed.wrapping_mul(37).wrapping_add(1)) as u8; len],
+        5 => {
+            let mut v = pattern_bytes(len, seed);
+            let z = (1 + seed as usize % 9).min(len);
+            for b in v[len - z..].iter_mut() {
+                *b = 0;
+            }
+            v
+        }
+        6 => {
+            let chars = ['a', 'é', '語', '😀', 'Z', '\u{feff}', 'ß', ' '];
+            let mut s = String::new();
+            let mut i = seed as usize;
+            loop {
+                let c = chars[i % chars.len()];
+                if s.len() + c.len_utf8() > len {
+                    break;
+                }
+                s.push(c);
+                i = i.wrapping_mul(31).wrapping_add(7);
+            }
+            while s.len() < len {
+                s.push('a');
+            }
+            s.into_bytes()
+        }
+        _ => {
+            let mut v = pattern_bytes(len, seed);
+            if len > 0 {
+                v[0] = 0;
+            }
+            v
         }
     }
 }
@@ -244,6 +353,11 @@ pub enum Op {
     BulkPut { kvs: Vec<(u32, Val)> },
     BulkPutStr { kvs: Vec<(u32, Val)> },
     PutFromIter { kvs: Vec<(u32, Val)> },
+    /// a put whose value is derived from the value currently stored (the model's; absent = empty):
+    /// mode 0 the old value + n new bytes (the old value is a proper prefix), 1 the old value cut by
+    /// n bytes, 2 the identical value again, 3 same length with one byte changed, 4 n new bytes + the
+    /// old value, 5 the old value twice
+    PutRel { k: u32, mode: u8, n: u16 },
     /// `h1.put_from_iter(h2.iter().map(|(k, v)| (k, t(v))))` with h2 another handle of the same
     /// map: every stored value rewritten in place through the batch call, fed by a live traversal
     /// (t even: identity, t odd: inverted bytes; the lengths never change, so no record moves while
@@ -255,6 +369,14 @@ pub enum Op {
     /// full traversal with other read-only calls between the steps: every `every`-th step a
     /// lookup of pool key `k` (+step), len(), and a step of a second, nested iterator
     IterMix { f: u8, every: u8, k: u32 },
+    /// full traversal driven by `nth(n)` (what `skip`, `step_by` and paging use): the items are those
+    /// of a plain traversal at positions n, 2n+1, ..; the hints stay exact
+    IterNth { f: u8, n: u8 },
+    /// create an iterator, advance it `take` steps and keep it alive (never stepped again unless the
+    /// map stays unmodified); it is drained or dropped by `DropIters`, a reopen or the end of the case
+    HoldIter { f: u8, take: u8 },
+    /// drain (if no update happened since they were created) and drop the held iterators
+    DropIters,
     Stats,
     ReadFill,
     Flush,
@@ -276,6 +398,12 @@ pub enum Op {
     ReacquireP { v: u8 },
     /// clone the db handle and re-acquire through the clone
     CloneDb,
+    /// drop every database object (all clones) while the map handles stay alive and in use; lookups
+    /// through the database object are skipped until the next reopen
+    DropDb,
+    /// the path the database was opened through stops resolving (the case then opens through a
+    /// symbolic link, which this op removes); the files stay where they are
+    HidePath,
     /// switch the current map (C11)
     Use { m: u16 },
     /// drop everything, reopen (in process), optionally verifying in a child process first
@@ -297,6 +425,7 @@ impl Op {
                 | Op::BulkPutStr { .. }
                 | Op::PutFromIter { .. }
                 | Op::PutFromOwnIter { .. }
+                | Op::PutRel { .. }
         )
     }
     pub fn is_sync(&self) -> bool {
